@@ -56,7 +56,7 @@ func (s *Site) start(r *rand.Rand) (StartOut, *flow, string) {
 	}
 	f := &flow{}
 	loc, err := url.Parse(resp.Header.Get("Location"))
-	if resp.Status == 302 && err == nil && loc.Host == s.IdP.Host() {
+	if world.IsRedirect(resp.Status) && err == nil && loc.Host == s.IdP.Host() {
 		o.ToIdP = true
 		f.State = loc.Query().Get("state")
 	}
